@@ -13,10 +13,27 @@ THEOREMS = ["Adc.orderSubs_simul", "Adc.permute_compose", "Adc.permuteMap_keysNo
             "Adc.lowestAvail_length", "Adc.lowestAvail_nodup", "Adc.lowestAvail_unused", "Adc.lowestAvail_space",
             "Adc.lowestAvail_lowest", "Adc.Slot.inv_init", "Adc.Slot.inv_run", "Adc.Slot.getGeneric_fresh",
             "Adc.Slot.getGeneric_nodup", "Adc.Slot.getGeneric_length", "Adc.Slot.get_idem",
-            "Adc.Slot.run_generic_fresh", "Adc.alpha_sound", "Adc.checkEquiv_sound"]
+            "Adc.Slot.run_generic_fresh", "Adc.alpha_sound", "Adc.checkEquiv_sound", "Adc.codeBaseLetters_ok", "Adc.codeSpins_ok"]
 
 TMP0 = 1000000
 
+
+
+def generate_tables(ctx):
+    import tables
+    ctx.code_facts = tables.gen_code_facts()
+
+
+def on_build_failure(ctx, out):
+    """a lemma over the regenerated constants no longer checks: name the constant that differs from the model"""
+    f = getattr(ctx, "code_facts", None) or {}
+    want = {"base": {"occ": [ord(c) for c in "ijklmno"], "virt": [ord(c) for c in "abcdefgh"], "general": [ord(c) for c in "pqrstuvw"]},
+            "spins": ["", "a", "b"], "scal_fields": ["total", "general", "virt", "occ"], "scaling_fields": ["computational", "memory"],
+            "scal_order": True, "scaling_order": True}
+    for k, v in want.items():
+        if f.get(k) != v:
+            ctx.violation(f"constant of the code differs from the model ({k}): code has {f.get(k)!r}, the model (and its theorems) "
+                          f"assume {v!r}", {"kind": "code-constant", "constant": k, "code": f.get(k), "model": v})
 
 def conv_idx(i, tmp):
     """registered Index -> wire tuple; unregistered temporaries numbered by first appearance"""
